@@ -302,7 +302,7 @@ func VH_Router_serve() {
 		vx.Reach("dispatched")
 		vx.Assert(paramsOK(impl, got.params), "C02: bind parameters at ServeHTTP level")
 		rt, present := got.params["route"]
-		vx.Assert(present && rt == vRegs[impl].path, "C02: the reserved parameter `route` is the canonical text of the matched route")
+		vx.Assert(present && rt == route.VCanonicalText(vRegs[impl].path), "C02: the reserved parameter `route` is the canonical text of the matched route")
 	} else {
 		vx.Reach("not-found")
 	}
